@@ -61,6 +61,8 @@ def execSetOp (st : DState) (env : Env) (name : String) (args : List String) (ot
   | "extract_if", [k] => no <| resOut (Set.extractIf cfg env (nat! k) w) elems w
   | "drain", [k, fg] => no <| resOut (Set.drain cfg env (nat! k) (fg == "1") w) elems w
   | "into_iter", [k] => no <| resOut (Set.intoIter cfg env (nat! k) w) elems w
+  | "drain_fold", [k] => no <| resOut (Set.drain cfg (foldEnv env (nat! k) w) (if nat! k = 0 then w.t.items else nat! k) false w) elems w
+  | "into_iter_fold", [k] => no <| resOut (Set.intoIter cfg (foldEnv env (nat! k) w) (if nat! k = 0 then w.t.items else nat! k) w) elems w
   | "iter", p :: _ =>
     match Map.iterObserve cfg w.t (nat! p) with
     | .error f => ({ ret := s!"FAULT({f})", w := w }, true, none)
@@ -97,6 +99,20 @@ def execSetOp (st : DState) (env : Env) (name : String) (args : List String) (ot
   | "bitand", [] => opForm (Set.bitand cfg env other w)
   | "bitxor", [] => opForm (Set.bitxor cfg env other w)
   | "sub", [] => opForm (Set.sub cfg env other w)
+  -- the same object on both sides (read-only binary calls): right operand = the target itself
+  | "self_union", [] => lazy (Set.unionHint w.t w.t) (Set.union cfg env w.t w)
+  | "self_intersection", [] => lazy (Set.intersectionHint w.t w.t) (Set.intersection cfg env w.t w)
+  | "self_difference", [] => lazy (Set.differenceHint w.t w.t) (Set.difference cfg env w.t w)
+  | "self_symmetric_difference", [] =>
+    lazy (Set.symmetricDifferenceHint w.t w.t) (Set.symmetricDifference cfg env w.t w)
+  | "self_is_subset", [] => no <| resOut (Set.isSubset cfg env w.t w) toString w
+  | "self_is_superset", [] => no <| resOut (Set.isSuperset cfg env w.t w) toString w
+  | "self_is_disjoint", [] => no <| resOut (Set.isDisjoint cfg env w.t w) toString w
+  | "self_eq", [] => no <| resOut (Set.setEq cfg env w.t w) toString w
+  | "self_bitor", [] => opForm (Set.bitor cfg env w.t w)
+  | "self_bitand", [] => opForm (Set.bitand cfg env w.t w)
+  | "self_bitxor", [] => opForm (Set.bitxor cfg env w.t w)
+  | "self_sub", [] => opForm (Set.sub cfg env w.t w)
   | "bitor_assign", [] => no <| resOutW (Set.bitorAssign cfg env other w) w
   | "bitand_assign", [] => no <| resOutW (Set.bitandAssign cfg env other w) w
   | "bitxor_assign", [] => no <| resOutW (Set.bitxorAssign cfg env other w) w
